@@ -20,6 +20,13 @@ def allowedWrites : List (String × String) := [
   ("(*Schema).UnmarshalJSON", "s.DependencyStrings[k]"),
   ("(*Schema).UnmarshalJSON", "s.DependencySchemas"),
   ("(*Schema).UnmarshalJSON", "s.DependencySchemas[k]"),
+  -- writes through a local alias (`info := infos[s]`): still the resolvedInfo records of the Resolved under construction
+  -- (checkLocal runs inside Resolve). A write of this shape in validate / applyDefaults would be a shared-state write.
+  ("(*Schema).checkLocal", "info.pattern (info = infos[s])"),
+  ("(*Schema).checkLocal", "info.patternProperties (info = infos[s])"),
+  ("(*Schema).checkLocal", "info.patternProperties[re] (info = infos[s])"),
+  ("(*Schema).checkLocal", "info.isRequired (info = infos[s])"),
+  ("(*Schema).checkLocal", "info.isRequired[r] (info = infos[s])"),
   -- `infos` is the map allocated by Resolve (newResolved) and filled before the Resolved is returned
   ("(*Schema).checkStructure", "infos[s]"),
   -- `a.*`: the annotations value is a local of one validate call (the caller's `anns` / a fresh one)
@@ -41,11 +48,30 @@ def allowedWrites : List (String × String) := [
   ("(*resolver).resolve", "r.loaded[baseURI.String()]"),
   ("(*resolver).resolve", "r.loaded[rs.resolvedInfos[s].uri.String()]"),
   ("(*resolver).resolveRef", "rs.resolvedInfos[s]"),
+  ("(*resolver).resolveRefs", "info.resolvedRef (info = rs.resolvedInfos[s])"),
+  ("(*resolver).resolveRefs", "info.dynamicRefAnchor (info = rs.resolvedInfos[s])"),
+  ("(*resolver).resolveRefs", "info.dynamicRefFallback (info = rs.resolvedInfos[s])"),
+  ("(*resolver).resolveRefs", "info.resolvedDynamicRef (info = rs.resolvedInfos[s])"),
   -- `st.stack`: the `state` struct is created per Validate / ApplyDefaults call: private per-call state
   ("(*state).validate", "st.stack"),
   -- `seen[..]`: the map allocated by For / ForType for one inference call
   ("forType", "seen[t]"),
   ("forType", "seen[_]"),
+  -- `s := schemas[t]` is only read (cloned and returned); afterwards the same identifier is re-bound to `new(Schema)`, the fresh
+  -- result, and these are the writes into that fresh object (the alias analysis is flow-insensitive and lists them)
+  ("forType", "s.Type (s = schemas[t])"),
+  ("forType", "s.Minimum (s = schemas[t])"),
+  ("forType", "s.Maximum (s = schemas[t])"),
+  ("forType", "s.AdditionalProperties (s = schemas[t])"),
+  ("forType", "s.Types (s = schemas[t])"),
+  ("forType", "s.Items (s = schemas[t])"),
+  ("forType", "s.MinItems (s = schemas[t])"),
+  ("forType", "s.MaxItems (s = schemas[t])"),
+  ("forType", "s.Properties (s = schemas[t])"),
+  ("forType", "s.Properties[name] (s = schemas[t])"),
+  ("forType", "s.PropertyOrder (s = schemas[t])"),
+  ("forType", "s.Properties[info.name] (s = schemas[t])"),
+  ("forType", "s.Required (s = schemas[t])"),
   ("forType", "seen[name]"),
   -- package initialisation (runs once, before any user goroutine)
   ("init", "initialSchemaMap[reflect.TypeFor[time.Time]()]"),
@@ -58,7 +84,11 @@ def allowedWrites : List (String × String) := [
   -- the two memo cells of the abstract machine: sync.Map, Store of a value that depends on the key only
   ("jsonNames", "jsonNamesMap.Store"),
   -- again the Resolved under construction
+  ("resolveURIs", "baseInfo.anchors (baseInfo = rs.resolvedInfos[base])"),
+  ("resolveURIs", "baseInfo.anchors[anchor] (baseInfo = rs.resolvedInfos[base])"),
+  ("resolveURIs", "info.uri (info = rs.resolvedInfos[s])"),
   ("resolveURIs", "rs.resolvedURIs[info.uri.String()]"),
+  ("resolveURIs", "info.base (info = rs.resolvedInfos[s])"),
   ("resolveURIs", "rs.resolvedInfos[rs.root].uri"),
   ("resolveURIs", "rs.resolvedURIs[baseURI.String()]"),
   ("structPropertiesOf", "structProperties.Store"),
